@@ -38,13 +38,15 @@ def evaluate(name, confirm, tier, also):
     if rc:
         return dict(name=name, property=pid, error='worktree: ' + out[-300:])
     res = dict(name=name, property=pid, title=meta.get('title'))
+    if os.path.exists(os.path.join(d, 'OBSOLETE')):     # neutralised by a later fix: commit (kept for the record)
+        res['obsolete'] = open(os.path.join(d, 'OBSOLETE')).read().strip()
     try:
         rc, out = sh(['git', '-C', wt, 'apply', os.path.join(d, 'patch.diff')])
         if rc:      # /repo moved on (later fix: commits): try a 3-way merge, then a rebased copy
             rc, out = sh(['git', '-C', wt, 'apply', '--3way', os.path.join(d, 'patch.diff')])
             res['patch_applied'] = '3way'
         if rc and os.path.exists(os.path.join(d, 'patch.rebased.diff')):
-            sh(['git', '-C', wt, 'checkout', '--', '.'])
+            sh(['git', '-C', wt, 'reset', '--hard', '-q', 'HEAD'])
             rc, out = sh(['git', '-C', wt, 'apply', os.path.join(d, 'patch.rebased.diff')])
             res['patch_applied'] = 'rebased'
         if rc:
@@ -65,7 +67,7 @@ def evaluate(name, confirm, tier, also):
                 continue
             t0 = time.time()
             rc, out = sh(['./check', p, '--tier', tier], cwd=VERIF,
-                         env=dict(os.environ, ZODB_REPO=wt, VERIF_SEED='0'), timeout=3600)
+                         env=dict(os.environ, ZODB_REPO=wt, VERIF_SEED='0', VERIF_OUT=wt + '-out'), timeout=3600)
             vio = [l for l in out.splitlines() if l.startswith('VIOLATION')]
             res['checks'][p] = dict(exit=rc, caught=bool(vio) and rc == 1, line=(vio[0] if vio else ''),
                                     wall=round(time.time() - t0, 1), tail=out[-300:] if rc not in (0, 1) else '')
@@ -81,6 +83,7 @@ def evaluate(name, confirm, tier, also):
     finally:
         sh(['git', '-C', '/repo', 'worktree', 'remove', '--force', wt])
         shutil.rmtree(wt, ignore_errors=True)
+        shutil.rmtree(wt + '-out', ignore_errors=True)
     return res
 
 
@@ -93,9 +96,12 @@ def main():
     a = ap.parse_args()
     names = a.ids or sorted(n for n in os.listdir(SEEDED) if os.path.isdir(os.path.join(SEEDED, n)))
     rp = os.path.join(SEEDED, 'RESULTS.json')
-    results = json.load(open(rp)) if os.path.exists(rp) else {}
+    import fcntl
+    lock = open(os.path.join(SEEDED, '.results.lock'), 'w')
     for n in names:
         r = evaluate(n, a.confirm, a.tier, [x for x in a.also.split(',') if x])
+        fcntl.flock(lock, fcntl.LOCK_EX)        # several evaluations may run side by side
+        results = json.load(open(rp)) if os.path.exists(rp) else {}
         old = results.get(n, {})
         for k in ('tests', 'demo_unpatched_exit', 'demo_patched_exit'):
             if k not in r and k in old:
@@ -108,7 +114,10 @@ def main():
                                        r.get('error') or (('CAUGHT ' + str(c.get('signature'))) if isinstance(c, dict) and c['caught']
                                                           else ('MISSED exit=%s' % (c.get('exit') if isinstance(c, dict) else c)))))
         sys.stdout.flush()
-        json.dump(results, open(rp, 'w'), indent=1)
+        with open(rp + '.tmp', 'w') as f:
+            json.dump(results, f, indent=1)
+        os.replace(rp + '.tmp', rp)
+        fcntl.flock(lock, fcntl.LOCK_UN)
 
 
 if __name__ == '__main__':
